@@ -254,7 +254,16 @@ func zeroOfSort(s Sort) *Term {
 		_, v := s.ArrayParts()
 		return ConstArr(s, zeroOfSort(v))
 	}
-	panic("zeroOfSort: " + string(s))
+	for _, si := range structInfos {
+		if Sort(si.sortName) == s {
+			fs := make([]*Term, len(si.fields))
+			for i, f := range si.fields {
+				fs[i] = zeroOf(f.Type())
+			}
+			return si.Mk(fs)
+		}
+	}
+	panic(Unsupported{Msg: "zero value of sort " + string(s)})
 }
 
 func zeroOf(t types.Type) *Term {
